@@ -461,6 +461,9 @@ Spans of submodels differ:
             **kwargs,
         )
 
+        # No iterations at all if `max_iter` is zero: initialise the counter
+        iteration = 0
+
         for iteration in range(1, max_iter + 1):
             previous_values = copy.deepcopy(current_values)
 
